@@ -137,6 +137,17 @@ fn decode(bytes: &[u8], bits: u32, unsigned: bool) -> Option<i128> {
     })
 }
 
+const EXTRA_FLAGS: usize = 5;
+fn extra_flags(k: usize) -> ColumnFlags {
+    match k {
+        0 => ColumnFlags::empty(),
+        1 => ColumnFlags::ZEROFILL_FLAG,
+        2 => ColumnFlags::NOT_NULL_FLAG | ColumnFlags::PRI_KEY_FLAG | ColumnFlags::AUTO_INCREMENT_FLAG,
+        3 => ColumnFlags::BINARY_FLAG | ColumnFlags::NUM_FLAG | ColumnFlags::PART_KEY_FLAG,
+        _ => ColumnFlags::all() - ColumnFlags::UNSIGNED_FLAG,
+    }
+}
+
 struct Matrix {
     tys: Vec<Ty>,
 }
@@ -146,14 +157,19 @@ impl Family for Matrix {
         "type-x-column-matrix".into()
     }
     fn len(&self) -> u64 {
-        (self.tys.len() * COLS.len() * 2) as u64
+        (self.tys.len() * COLS.len() * 2 * EXTRA_FLAGS) as u64
     }
     fn run(&self, idx: u64, st: &mut Stats) -> Result<(), Violation> {
-        let d = digits(idx, &[self.tys.len() as u64, COLS.len() as u64, 2]);
+        let d = digits(idx, &[self.tys.len() as u64, COLS.len() as u64, 2, EXTRA_FLAGS as u64]);
         let ty = &self.tys[d[0] as usize];
         let (ct, cname, bits) = COLS[d[1] as usize];
         let unsigned = d[2] == 1;
-        let c = col("c", ct, if unsigned { ColumnFlags::UNSIGNED_FLAG } else { ColumnFlags::empty() });
+        // flags that say nothing about the range: only UNSIGNED_FLAG decides signedness
+        let extra = extra_flags(d[3] as usize);
+        if d[3] != 0 {
+            st.bump("columns_with_other_flags");
+        }
+        let c = col("c", ct, extra | if unsigned { ColumnFlags::UNSIGNED_FLAG } else { ColumnFlags::empty() });
         let (cmin, cmax) = col_range(bits, unsigned);
         let whole_type_fits = ty.min >= cmin && ty.max <= cmax;
         st.evals += ty.vals.len() as u64 - 1;
@@ -161,7 +177,7 @@ impl Family for Matrix {
             st.transitions += 1;
             let fits = v >= cmin && v <= cmax;
             let r = guarded(|| (ty.enc)(v, &c));
-            let what = format!("{} value {} into {}{} column", ty.name, v, cname, if unsigned { " UNSIGNED" } else { "" });
+            let what = format!("{} value {} into {}{} column{}", ty.name, v, cname, if unsigned { " UNSIGNED" } else { "" }, if d[3] != 0 { format!(" with flags {:?}", extra) } else { String::new() });
             match r {
                 Ok(Ok(bytes)) => {
                     st.bump("accepted");
@@ -205,7 +221,7 @@ impl Family for Matrix {
     fn describe(&self, idx: u64) -> J {
         let d = digits(idx, &[self.tys.len() as u64, COLS.len() as u64, 2]);
         let ty = &self.tys[d[0] as usize];
-        json!({"rust_type": ty.name, "column": COLS[d[1] as usize].1, "unsigned": d[2] == 1, "values": ty.vals.len(), "first_values": ty.vals.iter().take(6).map(|v| v.to_string()).collect::<Vec<_>>()})
+        json!({"rust_type": ty.name, "column": COLS[d[1] as usize].1, "unsigned": d[2] == 1, "other_flags": format!("{:?}", extra_flags((idx / (self.tys.len() * COLS.len() * 2) as u64) as usize)), "values": ty.vals.len(), "first_values": ty.vals.iter().take(6).map(|v| v.to_string()).collect::<Vec<_>>()})
     }
 }
 
@@ -371,12 +387,12 @@ pub fn build(quick: bool) -> Check {
     Check {
         id: "C15",
         level: "model_checking",
-        rule: "all pairs (Rust type in {u8,i8,u16,i16,u32,i32,u64,i64,usize,isize, Value::Int, Value::UInt}) x (column in {TINY,SHORT,YEAR,INT24,LONG,LONGLONG} x {signed,unsigned}); values exhaustive for 8- and 16-bit types, otherwise every +-2^k, +-2^k+-1, type bounds and every column bound +-1; driven at the public to_mysql_bin seam, and through write_col/run_on with neighbouring cells. Oracle: bytes decoded by the column's width and signedness; accepted => decoded == written and width == column width; fixed-width type contained in the column => accepted; pointer-sized => accepted iff the value fits; a panic counts as a refusal and is tallied. Non-trivial = a value the column cannot represent.".into(),
+        rule: "all pairs (Rust type in {u8,i8,u16,i16,u32,i32,u64,i64,usize,isize, Value::Int, Value::UInt}) x (column in {TINY,SHORT,YEAR,INT24,LONG,LONGLONG} x {signed,unsigned} x 5 sets of other flags (none, ZEROFILL, NOT NULL|PRI KEY|AUTO_INCREMENT, BINARY|NUM|PART KEY, every flag but UNSIGNED)); values exhaustive for 8- and 16-bit types, otherwise every +-2^k, +-2^k+-1, type bounds and every column bound +-1; driven at the public to_mysql_bin seam, and through write_col/run_on with neighbouring cells. Oracle: bytes decoded by the column's width and signedness; accepted => decoded == written and width == column width; fixed-width type contained in the column => accepted; pointer-sized => accepted iff the value fits; a panic counts as a refusal and is tallied. Non-trivial = a value the column cannot represent.".into(),
         assumptions: vec!["32/64-bit value domains are covered at boundary lattices".into()],
         bounds: json!({"types": 12, "columns": 12}),
         exhaustive: true,
         caps_hit: vec![],
         families: if quick { vec![Box::new(Matrix { tys: types() }), Box::new(ThroughRows), Box::new(super::c07::MixedRows), Box::new(super::aftermath::Aftermath { prop: "C15" })] } else { vec![Box::new(Matrix { tys: types() }), Box::new(ThroughRows), Box::new(Exhaustive32), Box::new(super::c07::MixedRows), Box::new(super::aftermath::Aftermath { prop: "C15" })] },
-        required: vec!["mixed_rows", "aftermath_recovered", "accepted", "refused", "rows_accepted", "rows_refused"],
+        required: vec!["columns_with_other_flags", "mixed_rows", "aftermath_recovered", "accepted", "refused", "rows_accepted", "rows_refused"],
     }
 }
